@@ -160,6 +160,8 @@ def real_expand(rs: Dict[str, Any], tmp: Path) -> Tuple[str, Any]:
         return "max_runs", (exc.actual_runs, exc.max_runs)
     except (PipelineConfigurationError, ValueError) as exc:
         return "config", str(exc)[:160]
+    except Exception as exc:      # neither a plan nor a configuration error: the expansion itself broke down
+        return "crash", f"{type(exc).__name__}: {str(exc)[:160]}"
 
 
 def replay_chunk(cases: List[Dict[str, Any]]):
@@ -214,7 +216,9 @@ def replay_chunk(cases: List[Dict[str, Any]]):
             else:
                 # a specification with a structural defect must be rejected; when it is also over the
                 # cap either rejection is acceptable (which check fires first is not part of the property)
-                if kind not in ("config", "max_runs"):
+                if kind == "crash":
+                    out["viol"].append((f"wrong-error:{exp}:{shape}", f"spec rejects ({exp}) with a configuration error; the code broke down with {payload}; run_space={rs}", {"case": case, "run_space": rs}))
+                elif kind not in ("config", "max_runs"):
                     out["viol"].append((f"accepted-invalid:{exp}:{shape}", f"spec rejects ({exp}) but code returned {kind}: {str(payload)[:200]}; run_space={rs}", {"case": case, "run_space": rs}))
     finally:
         shutil.rmtree(tmp, ignore_errors=True)
@@ -222,7 +226,8 @@ def replay_chunk(cases: List[Dict[str, Any]]):
 
 
 def _k(r):
-    return json.dumps(r, sort_keys=True)
+    # (keys that are not text -- the code must never hand them out -- are kept apart from their text form)
+    return json.dumps(sorted((f"{type(k).__name__}:{k}", repr(v)) for k, v in r.items()))
 
 
 HUGE = [
